@@ -332,8 +332,8 @@ func runGate(c *core.Ctx, slot int, stream string, idx int, sc gateScn) {
 		return
 	}
 	rel := sc.rel
-	if rel == "stepout" && depth == 0 {
-		rel = "stepover" // candidate 24 (C16): no stepout at top level
+	if rel == "stepout" && depth == 0 && !topLevelStepOutOK() {
+		rel = "stepover" // candidate 24 (C16): no stepout at top level while it panics
 	}
 	if sc.threads > 0 {
 		// the other threads must really be parked before StopThreads
